@@ -12,9 +12,14 @@ use crate::types::{CommandLine, CommandResult, Tokens};
 /// Entry point for non-ttys (e.g. Cmd-N on MacVim)
 pub fn run_procs_for_non_tty(sh: &mut Shell) {
     let mut buffer = String::new();
-    let stdin = io::stdin();
-    let mut handle = stdin.lock();
-    match handle.read_to_string(&mut buffer) {
+    // (the lock on stdin is given back before the commands run: a `read`
+    // among them would wait for it forever)
+    let result = {
+        let stdin = io::stdin();
+        let mut handle = stdin.lock();
+        handle.read_to_string(&mut buffer)
+    };
+    match result {
         Ok(_) => {
             log!("run non tty command: {}", &buffer);
             run_command_line(sh, &buffer, false, false);
